@@ -96,9 +96,13 @@ func (r *Response) Merge(requests []protocol.Message, results []interface{}) (
 		if err != nil {
 			return nil, err
 		}
+		brokerResp := m.(*Response)
+		if response.ThrottleTimeMs < brokerResp.ThrottleTimeMs {
+			response.ThrottleTimeMs = brokerResp.ThrottleTimeMs
+		}
 		response.Resources = append(
 			response.Resources,
-			m.(*Response).Resources...,
+			brokerResp.Resources...,
 		)
 	}
 
